@@ -128,6 +128,10 @@ func zipBaseMap(z *zArchive, prefix string) *Map {
 		m.Set(e.CD.Off, e.CD.Len, Unclassified, prefix+"zip.central-header")
 	}
 	m.Set(z.EOCD.Off, z.EOCD.Len, Unclassified, prefix+"zip.eocd")
+	if z.EOCD64.Len > 0 {
+		m.Set(z.EOCD64.Off, z.EOCD64.Len, Unclassified, prefix+"zip.eocd64")
+		m.Set(z.Loc64.Off, z.Loc64.Len, Unclassified, prefix+"zip.eocd64-locator")
+	}
 	if z.SigBlock.Len > 0 {
 		m.Set(z.SigBlock.Off, z.SigBlock.Len, Unclassified, prefix+"apk-signing-block")
 	}
